@@ -85,10 +85,11 @@ Definition ctl_eqb (a b : ctl) : bool := Nat.eqb (ctl_index a) (ctl_index b).
 Definition lastset := ctl -> option Z.
 Definition ls_set (l : lastset) (c : ctl) (v : Z) : lastset := fun d => if ctl_eqb c d then Some v else l d.
 
-(* in-range values of the settable controls *)
+(* in-range values of the settable controls: a boolean control takes any int, read as C
+   truthiness (0 = off, anything else = on; a read then returns 1) *)
 Definition ctl_in_rangeb (c : ctl) (v : Z) : bool :=
   match c with
-  | CtlAltscreen | CtlCursorvis | CtlCursorblink | CtlKeypadApp => (v =? 0) || (v =? 1)
+  | CtlAltscreen | CtlCursorvis | CtlCursorblink | CtlKeypadApp => true
   | CtlMouse => (0 <=? v) && (v <=? 3)
   | CtlCursorshape => (1 <=? v) && (v <=? 3)
   | CtlColors | CtlCapRgb8 => false
